@@ -288,6 +288,34 @@ def ref_metric(name, yt, yp):
     raise AssertionError(name)
 
 
+class RefPipe:
+    """TransformedTargetForecaster([affine y -> a*y+b, inner]) around a RefForecaster (C08)."""
+
+    def __init__(self, fc):
+        self.a, self.b = Fraction(fc["a"]), Fraction(fc["b"])
+        self.inner = RefForecaster(fc["inner"])
+
+    def _t(self, y):
+        return [(t, self.a * v + self.b) for t, v in y]
+
+    def fit(self, y, x):
+        self.inner.fit(self._t(y), x)
+
+    def update(self, y, x):
+        self.inner.update(self._t(y), None)       # TransformedTargetForecaster.update drops X
+
+    @property
+    def cutoff(self):
+        return self.inner.cutoff
+
+    def predict(self, fhabs, x):
+        return [(v - self.b) / self.a for v in self.inner.predict(fhabs, x)]
+
+
+def make_ref(fc):
+    return RefPipe(fc) if fc["type"] == "pipe" else RefForecaster(fc)
+
+
 class RefForecaster:
     """Exact twin of the test double / NaiveForecaster(last|mean) as a machine over calls."""
 
@@ -341,7 +369,7 @@ def ref_eval(case):
         return None
     fhmin = min(sp["fh"])
     rows, trace = [], []
-    f = RefForecaster(case["fc"])
+    f = make_ref(case["fc"])
     for i, (train, test) in enumerate(splits):
         ytr = [(p + off, ys[p]) for p in train]
         xtr = None if xs is None else [(p + off, xs[p]) for p in train]
@@ -350,7 +378,7 @@ def ref_eval(case):
         xte = None if xs is None else [(p + off, xs[p]) for p in xpos]
         if i == 0 or case["strategy"] == "refit":
             if case["strategy"] == "refit":
-                f = RefForecaster(case["fc"])      # honest: a forecaster that knows nothing else
+                f = make_ref(case["fc"])      # honest: a forecaster that knows nothing else
             f.fit(ytr, xtr)
             trace.append({"op": "fit", "y": ytr, "X": xtr, "fh": fhabs})
         else:
